@@ -54,7 +54,7 @@ type Contract struct {
 	Reads     []string
 	Abstract  bool // body not verified here although in /repo ("assumed" contract, reported)
 	Sets      []*SetClause
-	Allocates int // objects the callee may allocate besides its results (fresh(x) in ensures refers to them)
+	Allocates int    // objects the callee may allocate besides its results (fresh(x) in ensures refers to them)
 	Access    string // dispatch class (surface sweep)
 	// Unreachable: source text of return statements that may be dead under the contracts in force (vacuity guard)
 	Unreachable []string
@@ -93,6 +93,7 @@ type SpecDB struct {
 	Funcs     map[string]*GhostFunc
 	Axioms    []*Axiom
 	KeySpaces []*KeySpace
+	Confined  []string // write-confined unexported fields (confined.go)
 	Files     []string
 }
 
@@ -114,7 +115,7 @@ var labelRe = regexp.MustCompile(`^([a-zA-Z][a-zA-Z0-9_\-]*):\s+(.*)$`)
 
 var keywords = map[string]bool{"channel": true, "func": true, "interface": true, "props": true, "requires": true, "ensures": true,
 	"modifies": true, "nopanic": true, "inline": true, "pure": true, "loop": true, "closure": true, "invariant": true,
-	"ghost": true, "allocates": true, "like": true, "sets": true, "axiom": true, "note": true, "reads": true, "abstract": true, "end": true, "access": true, "keyspace": true, "unreachable": true, "assumes": true}
+	"ghost": true, "allocates": true, "like": true, "sets": true, "axiom": true, "note": true, "reads": true, "abstract": true, "end": true, "access": true, "keyspace": true, "confined": true, "unreachable": true, "assumes": true}
 
 // parseSpecFile reads //@ lines (or bare lines in .spec files) into the db.
 // pkgShort qualifies unqualified function keys.
@@ -329,6 +330,12 @@ func (db *SpecDB) parseSpecFile(path string, src []byte, pkgShort string, truste
 				db.Funcs[gf.Name] = gf
 			default:
 				return fmt.Errorf("%s: ghost var|func", loc)
+			}
+		case "confined":
+			for _, f := range strings.Split(rest, ",") {
+				if f = strings.TrimSpace(f); f != "" && !contains(db.Confined, f) {
+					db.Confined = append(db.Confined, f)
+				}
 			}
 		case "keyspace":
 			ks, err := parseKeySpace(rest)
